@@ -494,6 +494,16 @@ def witness_models():
               dict(kind='dec', id=5, rk=[3], rd=[], ri=[1, 2], callable=[],
                    logic=('ctx', ((2002, ('ctx', ((1, ('num', 5)),), ('add', ('var', 1), ('num', 1)))), (2003, ('var', 1))), None)),
               dict(kind='dec', id=6, rk=[3], rd=[], ri=[1, 2], callable=[], logic=('invoke', 3, ((1, ('add', ('var', 1), ('num', 50))),)))])
+    # a boxed invocation whose called expression is NOT a function (an input's number; a name that is not bound at all), with bindings named like the
+    # caller's inputs, followed by reads of those inputs: the invocation is null and leaves nothing behind (seeded change C13_j: the context of the
+    # bound parameters was pushed before the callee was looked at and popped only for a function)
+    W.append([dict(kind='input', id=1), dict(kind='input', id=2),
+              dict(kind='dec', id=3, rk=[], rd=[], ri=[1, 2], callable=[],
+                   logic=('ctx', ((2001, ('invoke', 2, ((1, ('add', ('var', 1), ('num', 50))),))), (2002, ('add', ('var', 1), ('num', 1)))), ('add', ('var', 2002), ('var', 1)))),
+              dict(kind='dec', id=4, rk=[], rd=[], ri=[1, 2], callable=[],
+                   logic=('ctx', ((2001, ('invoke', 2003, ((1, ('mul', ('var', 1), ('num', 7))), (2, ('num', 9))))), (2002, ('var', 1))), ('add', ('var', 2002), ('var', 2)))),
+              dict(kind='bkm', id=5, params=[1], body=('ctx', ((2001, ('invoke', 1, ((1, ('add', ('var', 1), ('num', 50))),))),), ('add', ('var', 1), ('num', 3))), rk=[], callable=[]),
+              dict(kind='dec', id=6, rk=[5], rd=[], ri=[1, 2], callable=[], logic=('add', ('call', 5, (('var', 2),)), ('var', 1)))])
     return W
 
 
@@ -533,6 +543,8 @@ def callee_names(B, f):
     n = B[f]
     if n['kind'] == 'svc':
         return set(M.svc_params(B, n))
+    if n['kind'] != 'bkm':
+        return set()
     names = set(n['params'])
     if n['body'][0] == 'ctx':
         names |= set(kk for kk, _ in n['body'][1])
@@ -543,6 +555,8 @@ def callee_shape(B, f):
     n = B[f]
     if n['kind'] == 'svc':
         return 'service'
+    if n['kind'] != 'bkm':
+        return 'something that is not a function'
     b = n['body']
     return {'ctx': 'bkm context' + (' with result' if b[0] == 'ctx' and b[2] is not None else ''), 'invoke': 'bkm invocation', 'rel': 'bkm relation'}.get(b[0], 'bkm literal')
 
